@@ -460,6 +460,30 @@ def case_random(ctx, kind, start, rseed, count, maxlen):
         run_history(ctx, kind, start, ops)
 
 
+def case_repo_tests(ctx):
+    """The repository's own tests with the class invariants installed (thorough tier)."""
+    import json
+    import os
+    import subprocess
+    import sys
+    import tempfile
+    from .. import REPO, VERIF
+    out = tempfile.mktemp(suffix=".json")
+    env = dict(os.environ, VMON_GRAPHINV_REPORT=out, PYTHONPATH=VERIF + os.pathsep + os.path.join(VERIF, ".deps"))
+    p = subprocess.run([sys.executable, "-m", "pytest", "-q", "-p", "no:cacheprovider", "-p", "vmon.monitors.pytest_graphinv",
+                        "--timeout=900", "--continue-on-collection-errors", "-q", "tests"], cwd=REPO, env=env,
+                       capture_output=True, text=True, timeout=2400)
+    if not os.path.exists(out):
+        ctx.problems.append({"kind": "repo-tests-no-report", "case": ctx.case, "traceback": p.stdout[-1500:] + p.stderr[-1500:]})
+        return
+    data = json.load(open(out))
+    os.unlink(out)
+    ctx.count("repo_tests_invariant_evaluations", data["evaluations"])
+    for f in data["failures"][:10]:
+        ctx.violation("class-invariant(repo-tests)", "while the repository's tests ran: %s" % f)
+    ctx.judged(("repo-tests",), nontrivial=True, sample={"repo_tests_invariant_evaluations": data["evaluations"]})
+
+
 def workload(tier, seed):
     maxlen = 2 if tier == "quick" else 3
     enum_starts = [("simple", ["Graph", 2]), ("simple", ["Graph", 3]), ("simple", ["complete", 3]),
@@ -485,6 +509,8 @@ def workload(tier, seed):
                 starts.append(("bipartite", ["BipartiteGraph", L, R]))
     starts += [("complete-bipartite", ["CompleteBipartiteGraph", 3, 2]),
                ("complete-bipartite", ["CompleteBipartiteGraph", 0, 2])]
+    if tier != "quick":
+        yield "repo_tests", {}
     batches = 2 if tier == "quick" else 40
     for kind, start in starts:
         for b in range(batches):
